@@ -625,7 +625,102 @@ def determinism(argv) -> int:
     return 0 if bad == 0 else 1
 
 
+def _scratch_with_patch(patch_path: str) -> str:
+    tmp = tempfile.mkdtemp(prefix="schwifty-seed-")
+    shutil.copytree(os.path.join(REPO, "schwifty"), os.path.join(tmp, "schwifty"),
+                    ignore=shutil.ignore_patterns("__pycache__"))
+    p = subprocess.run(["git", "apply", "--whitespace=nowarn", patch_path], cwd=tmp, capture_output=True, check=False)
+    if p.returncode != 0:
+        shutil.rmtree(tmp, ignore_errors=True)
+        raise RuntimeError(f"{patch_path} does not apply: {p.stderr.decode()[-300:]}")
+    return tmp
+
+
+def _run_patch_job(job):
+    """job = (label, patch, prop, expect) with expect in {'flag', 'quiet'}."""
+    label, patch, prop, expect = job
+    t0 = time.time()
+    try:
+        tmp = _scratch_with_patch(patch)
+    except RuntimeError as e:
+        return label, prop, expect, "BROKEN-PATCH", str(e)[:200], 0.0
+    try:
+        rc, out, err = run([PY, *ARGS[prop]], env={"SCHWIFTY_SRC": tmp, "VERIF_WORKERS": "4", "VERIF_WALL_CAP": "3000"},
+                           timeout=7200)
+    finally:
+        shutil.rmtree(tmp, ignore_errors=True)
+    flagged = rc == 1 and f"VIOLATION property={prop}" in out
+    if rc not in (0, 1):
+        verdict = "HARNESS-ERROR"
+    elif expect == "flag":
+        verdict = "ok" if flagged else "MISSED"
+    else:
+        verdict = "ok" if rc == 0 else "ALARM"
+    lines = [ln for ln in out.splitlines() if ln.startswith("  class=")]
+    detail = (lines[0][:160] if lines else (err.strip().splitlines()[-1][:160] if err.strip() else ""))
+    return label, prop, expect, verdict, detail, time.time() - t0
+
+
+def _seeded_jobs():
+    import json
+
+    base = os.path.join(VERIF, "seeded")
+    jobs = []
+    for sid in sorted(os.listdir(base)):
+        meta = json.load(open(os.path.join(base, sid, "meta.json"), encoding="utf-8"))
+        for key, what in sorted(meta.get("caught_by", {}).items()):
+            prop = key.split()[0]
+            if prop not in ARGS or "(later)" in key:
+                continue
+            now_missed = what.startswith("MISSED -") or what.startswith("MISSED (") and "After" not in what and "after" not in what
+            jobs.append((sid, os.path.join(base, sid, "patch.diff"), prop, "quiet-or-flag" if now_missed else "flag"))
+    return jobs
+
+
+def seeded(argv) -> int:
+    """Regression over /verif/seeded: every kept change must still be flagged by the checks recorded as catching it."""
+    only = next((a.split("=", 1)[1] for a in argv if a.startswith("--id=")), None)
+    jobs = [j for j in _seeded_jobs() if only is None or only in j[0]]
+    bad = 0
+    with ThreadPoolExecutor(4) as ex:
+        for label, prop, expect, verdict, detail, dt in ex.map(
+                lambda j: _run_patch_job((j[0], j[1], j[2], "flag" if j[3] == "flag" else "quiet")), jobs):
+            if expect == "quiet":  # recorded as (still) missed: either outcome is informative, none is an error
+                verdict = "noted" if verdict in ("ok", "ALARM") else verdict
+            print(f"{verdict:13s} {prop} {label:55s} {dt:7.1f}s  {detail}")
+            sys.stdout.flush()
+            bad += verdict not in ("ok", "noted")
+    print(f"seeded regression: {len(jobs) - bad}/{len(jobs)} as recorded")
+    return 0 if bad == 0 else 1
+
+
+def preserving(argv) -> int:
+    """Regression over /verif/preserving: behaviour-preserving patches must leave all four quick checks quiet
+    (p14-2 on C15 is the recorded true positive)."""
+    only = next((a.split("=", 1)[1] for a in argv if a.startswith("--id=")), None)
+    base = os.path.join(VERIF, "preserving")
+    jobs = []
+    for pid in sorted(os.listdir(base)):
+        if only is not None and only not in pid:
+            continue
+        for prop in ("C13", "C14", "C15", "C18"):
+            expect = "flag" if (pid, prop) == ("p14-2", "C15") else "quiet"
+            jobs.append((pid, os.path.join(base, pid, "patch.diff"), prop, expect))
+    bad = 0
+    with ThreadPoolExecutor(4) as ex:
+        for label, prop, expect, verdict, detail, dt in ex.map(_run_patch_job, jobs):
+            print(f"{verdict:13s} {prop} {expect:5s} {label:10s} {dt:7.1f}s  {detail}")
+            sys.stdout.flush()
+            bad += verdict != "ok"
+    print(f"preserving regression: {len(jobs) - bad}/{len(jobs)} as expected")
+    return 0 if bad == 0 else 1
+
+
 def main(what: str, argv) -> int:
+    if what == "seeded":
+        return seeded(argv)
+    if what == "preserving":
+        return preserving(argv)
     if what == "sensitivity":
         return sensitivity(argv)
     if what == "determinism":
